@@ -18,7 +18,10 @@ open Dp
     `grp` is Python `None`. The model computes `groupdict()` itself.
     `get`  = `App._get_responder` (method may be the meta method WEBSOCKET), `http` = the HTTP entry point.
     Reply: `<responder> kw=<k:v;k2;…|->` (sorted by key; `k:v` = text value, possibly empty; bare `k` = None) with responder one of
-      resource:<rid>:<METHOD>[~suffix] | options:<allow,…> | 405:<allow,…> | 400 | sink:<id> | static:<id> | 404 -/
+      resource:<rid>:<METHOD>[~suffix] | options:<allow,…> | 405:<allow,…> | 400 | sink:<id> | static:<id> | 404
+    An `http` line may carry `pre=<status code>:<x + hex of the Allow value | ->`: the state of the response when the responder runs
+    (left by the response_type initializer and process_request / process_resource middleware). For falcon's own answers (options, 405,
+    400, 404) the reply then ends with ` st=<status> allow=<hex of the Allow header|->` (`Dp.answer`). -/
 
 def kv (ws : List String) (k : String) : String :=
   match ws.find? (·.startsWith (k ++ "=")) with
@@ -72,6 +75,13 @@ def parseReg (s : String) : Option RouteReg :=
         suffix := if sfx.startsWith "=" then some (sfx.drop 1).toString else none }
   | _ => none
 
+/-- the `Allow` value travels hex-encoded (it may contain spaces and commas); a preset value arrives as hex and is kept as is:
+    the model never inspects it. `hexOf` encodes the values the model itself produces; preset values are tagged `x` + hex. -/
+def hexDigit (n : Nat) : Char := if n < 10 then Char.ofNat (48 + n) else Char.ofNat (87 + n)
+def hexOf (s : String) : String :=
+  if s.startsWith "x" && s.length % 2 == 1 && (s.drop 1).toString.all (fun c => c.isDigit || ('a' ≤ c && c ≤ 'f')) then (s.drop 1).toString
+  else String.join (s.toUTF8.toList.map fun b => String.ofList [hexDigit (b.toNat / 16), hexDigit (b.toNat % 16)])
+
 def runAdd (ws : List String) : String :=
   match (splitNE (kv ws "regs") "|").filterMap parseReg with
   | [r] => if accepted (splitNE (kv ws "combined") ",") r then "ok" else "rejected"
@@ -105,7 +115,17 @@ def runCase (kind : String) (ws : List String) : String :=
   let kw := match r with
     | .resource .. | .sink .. | .static .. => app.getParamsM (route.map fun _ => parseKw (kv ws "fields")) hitf mtab
     | _ => []
-  showR sfx r ++ " kw=" ++ showKw kw
+  -- `pre=<status>:<hex of the Allow value|->` (http lines only): what earlier stages left on the response; the model then also
+  -- answers with the status / Allow of the final response when the chosen responder is one of falcon's own
+  let preW := kv ws "pre"
+  let tail := if preW.isEmpty || !r.isDefault then "" else
+    match preW.splitOn ":" with
+    | [st, al] =>
+      let pre : Resp := { status := st.toNat?.getD 200, allow := if al == "-" then none else some al }
+      let a := answer pre r
+      s!" st={a.status} allow={(a.allow.map hexOf).getD "-"}"
+    | _ => " bad-pre"
+  showR sfx r ++ " kw=" ++ showKw kw ++ tail
 
 partial def loop (h : IO.FS.Stream) : IO Unit := do
   let line ← h.getLine
